@@ -6,7 +6,7 @@ cd /verif
 PAT=${1:-}
 [ -z "$(git -C /repo status --short | grep -v '^??')" ] || { echo "/repo is not clean"; exit 2; }
 OUT=/verif/seeded/REGRESSION.txt; : > $OUT.tmp
-for d in seeded/*/; do
+for d in /verif/seeded/*/; do
   n=$(basename $d); [ -f $d/patch.diff ] || continue
   case "$n" in *$PAT*) ;; *) continue;; esac
   P=$(python3 -c "import json,sys; print(json.load(open('$d/meta.json'))['property'])" 2>/dev/null) || continue
